@@ -1,18 +1,36 @@
 #!/venv/bin/python
-"""Re-introduce a repaired defect (reverse-apply its fix commit in /repo's working tree), run the check, restore.
-   tools/revert_fix_check.py <commit> <PID> [tier]"""
-import subprocess, sys, json, shutil
-c, pid = sys.argv[1], sys.argv[2]
-tier = sys.argv[3] if len(sys.argv) > 3 else "quick"
-def sh(x): return subprocess.run(x, shell=True, stdout=subprocess.PIPE, stderr=subprocess.STDOUT, text=True)
-assert sh("git -C /repo status --porcelain").stdout.strip() == "", "repo dirty"
-try:
-    r = sh(f"git -C /repo show {c} | git -C /repo apply -R")
-    assert r.returncode == 0, r.stdout
-    out = sh(f"cd /verif && ./check {pid} --tier {tier}")
-    lines = [l for l in out.stdout.splitlines() if "failing-clause" in l][:4]
-    print(json.dumps({"reverted_fix": c, "property": pid, "rc": out.returncode, "first": lines}, indent=1))
-finally:
-    sh("git -C /repo checkout -- .")
-    shutil.rmtree("/verif/replay", ignore_errors=True)
-    sh("cd /verif && git checkout -- evidence 2>/dev/null")
+"""Re-introduce repaired defects and run the checks: every 'fixed' entry of known_findings.json (or the commits given)
+is reverse-applied in a scratch worktree of /repo (never /repo itself) and ./check <property> --tier quick must exit 1.
+   tools/revert_fix_check.py [<commit> <PID>]"""
+import json, os, shutil, subprocess, sys, tempfile
+
+def sh(x, **kw):
+    return subprocess.run(x, shell=True, stdout=subprocess.PIPE, stderr=subprocess.STDOUT, text=True, **kw)
+
+pairs = []
+if len(sys.argv) >= 3:
+    pairs = [(sys.argv[1], sys.argv[2])]
+else:
+    d = json.load(open("/verif/known_findings.json"))
+    fl = d["findings"] if isinstance(d, dict) else d
+    pairs = [(f["commit"], f["property"]) for f in fl if f["status"] == "fixed"]
+bad = 0
+for c, pid in pairs:
+    wt = tempfile.mkdtemp(prefix="revert-")
+    os.rmdir(wt)
+    assert sh(f"git -C /repo worktree add --detach {wt} HEAD").returncode == 0
+    try:
+        r = sh(f"cd {wt} && git show {c} | git apply -R")
+        if r.returncode:
+            print(json.dumps({"reverted_fix": c, "property": pid, "rc": "revert-does-not-apply"}))
+            continue
+        out = sh(f"cd /verif && ./check {pid} --tier quick", env=dict(os.environ, VERIF_REPO=wt))
+        lines = [l.strip() for l in out.stdout.splitlines() if "failing-clause" in l][:2]
+        print(json.dumps({"reverted_fix": c, "property": pid, "rc": out.returncode, "first": lines}), flush=True)
+        bad += out.returncode != 1
+    finally:
+        sh(f"git -C /repo worktree remove --force {wt}")
+        shutil.rmtree(wt, ignore_errors=True)
+        shutil.rmtree(f"/verif/replay/{pid}", ignore_errors=True)
+sh("cd /verif && git checkout -- evidence 2>/dev/null")
+sys.exit(1 if bad else 0)
